@@ -6,8 +6,8 @@
     sequences that correspond to the composite operations of the small models, and the
     operation sequences of the summary theorems.  Proofs: [Compose/FSAgreeGenProofs.v]
     (extensional facts about the general model), [Compose/FSAgreeMiniProofs.v],
-    [Compose/FSAgreeZipProofs.v]; inputs on which the models genuinely differ:
-    [Compose/FSAgreeDiffer.v].  The property theorems are appended to [Properties/C02.v] and
+    [Compose/FSAgreeZipProofs.v], [Compose/FSAgreeZipJobProofs.v] (the helpers are what a worker of
+    the pool runs); inputs on which the models genuinely differ: [Compose/FSAgreeDiffer.v].  The property theorems are appended to [Properties/C02.v] and
     [Properties/C19.v].
 
     How each model represents the root and relative paths.
@@ -145,23 +145,23 @@ Inductive mini_op :=
 | ORead (p : Mi.path) | OCreate (p : Mi.path) (c : list N) | OOpenExisting (p : Mi.path).
 
 (** what a call returns besides its errno *)
-Inductive obs := ObsNone | ObsNode (n : Gt.node) | ObsDest (d : list Gt.comp) | ObsData (c : list N).
+Inductive call_obs := ObsNone | ObsNode (n : Gt.node) | ObsDest (d : list Gt.comp) | ObsData (c : list N).
 
 (** errno ([None]: success) and returned value *)
-Definition outcome := (option Go.errno * obs)%type.
+Definition call_outcome := (option Go.errno * call_obs)%type.
 
 Section MiniRun.
   Variable enc : Mi.comp -> N.
   Variable ldest : N -> list Gt.comp.
 
-  Definition mini_lift (t : Mi.fs) (r : Mi.res Mi.fs) : option (outcome * Mi.fs) :=
+  Definition mini_lift (t : Mi.fs) (r : Mi.res Mi.fs) : option (call_outcome * Mi.fs) :=
     match r with
     | Mi.Ok t' => Some ((None, ObsNone), t')
     | Mi.Err e => Some ((Some (mini_errno e), ObsNone), t)
     | Mi.Unmodelled => None
     end.
 
-  Definition mini_lift_obs {A} (t : Mi.fs) (f : A -> obs) (r : Mi.res A) : option (outcome * Mi.fs) :=
+  Definition mini_lift_obs {A} (t : Mi.fs) (f : A -> call_obs) (r : Mi.res A) : option (call_outcome * Mi.fs) :=
     match r with
     | Mi.Ok a => Some ((None, f a), t)
     | Mi.Err e => Some ((Some (mini_errno e), ObsNone), t)
@@ -169,7 +169,7 @@ Section MiniRun.
     end.
 
   (** one operation in the small model; [None]: the model declines *)
-  Definition mini_step (t : Mi.fs) (o : mini_op) : option (outcome * Mi.fs) :=
+  Definition mini_step (t : Mi.fs) (o : mini_op) : option (call_outcome * Mi.fs) :=
     match o with
     | OLstat p => mini_lift_obs t (fun n => ObsNode (mini_node ldest n)) (Mi.lstat t p)
     | OReadlink p => mini_lift_obs t (fun d => ObsDest (ldest d)) (Mi.readlink t p)
@@ -183,20 +183,20 @@ Section MiniRun.
     | OOpenExisting p => mini_lift_obs t ObsData (Mi.open_existing t p)
     end.
 
-  Definition gen_lift (T : Gt.tree) (r : Go.res Gt.tree) : outcome * Gt.tree :=
+  Definition gen_lift (T : Gt.tree) (r : Go.res Gt.tree) : call_outcome * Gt.tree :=
     match r with
     | Go.Ok T' => ((None, ObsNone), T')
     | Go.Err e => ((Some e, ObsNone), T)
     end.
 
-  Definition gen_lift_obs {A} (T : Gt.tree) (f : A -> obs) (r : Go.res A) : outcome * Gt.tree :=
+  Definition gen_lift_obs {A} (T : Gt.tree) (f : A -> call_obs) (r : Go.res A) : call_outcome * Gt.tree :=
     match r with
     | Go.Ok a => ((None, f a), T)
     | Go.Err e => ((Some e, ObsNone), T)
     end.
 
   (** the corresponding call (sequence) in the general model *)
-  Definition gen_step (T : Gt.tree) (o : mini_op) : outcome * Gt.tree :=
+  Definition gen_step (T : Gt.tree) (o : mini_op) : call_outcome * Gt.tree :=
     match o with
     | OLstat p => gen_lift_obs T ObsNode (Go.lstat T (mini_path enc p))
     | OReadlink p => gen_lift_obs T ObsDest (Go.readlink T (mini_path enc p))
@@ -210,7 +210,7 @@ Section MiniRun.
     | OOpenExisting p => gen_lift_obs T ObsData (gen_open_existing T (mini_path enc p))
     end.
 
-  Fixpoint mini_run (t : Mi.fs) (ops : list mini_op) : option (list outcome * Mi.fs) :=
+  Fixpoint mini_run (t : Mi.fs) (ops : list mini_op) : option (list call_outcome * Mi.fs) :=
     match ops with
     | [] => Some ([], t)
     | o :: r =>
@@ -223,7 +223,7 @@ Section MiniRun.
         end
     end.
 
-  Fixpoint gen_run (T : Gt.tree) (ops : list mini_op) : list outcome * Gt.tree :=
+  Fixpoint gen_run (T : Gt.tree) (ops : list mini_op) : list call_outcome * Gt.tree :=
     match ops with
     | [] => ([], T)
     | o :: r => let '(x, T') := gen_step T o in
@@ -452,3 +452,40 @@ Fixpoint zip_calls_ok (f : Zi.fs) (cs : list zip_call) : bool :=
   end.
 
 Definition errno_is_none (e : option Go.errno) : bool := match e with None => true | Some _ => false end.
+
+(* ========================================================================================== *)
+(** * The helpers above are what a worker of [Zi.exec] does with the operations of [Zi.job] *)
+
+(** effect of one micro-step on (what Lstat saw, the tree): [None] no file-system call,
+    [Some r] the call's result *)
+Definition zip_mop_effect (seen : option Zi.node) (op : Zi.mop) (f : Zi.fs) : option Zi.node * option (option Zi.fs) :=
+  match op with
+  | Zi.MLstat p => (Zi.lookup f p, None)
+  | Zi.MMkRemove p => (seen, match seen with None | Some Zi.Dir => None | Some _ => Some (Zi.fs_remove p f) end)
+  | Zi.MMkMkdir p => (seen, match seen with Some Zi.Dir => None | _ => Some (Zi.fs_mkdir_all p f) end)
+  | Zi.MRemoveAll p => (seen, Some (Zi.fs_remove_all p f))
+  | Zi.MMkdirAll p => (seen, Some (Zi.fs_mkdir_all p f))
+  | Zi.MCreate p => (seen, Some (Zi.fs_create p f))
+  | Zi.MAppend p c => (seen, Some (Zi.fs_append p c f))
+  | Zi.MSymlink p d => (seen, Some (Zi.fs_symlink p d f))
+  | _ => (seen, None)
+  end.
+
+(** a list of micro-steps run one after the other; the first failing call ends it *)
+Fixpoint zip_seq_ops (seen : option Zi.node) (ops : list Zi.mop) (f : Zi.fs) : bool * Zi.fs :=
+  match ops with
+  | [] => (true, f)
+  | op :: r =>
+      match zip_mop_effect seen op f with
+      | (seen', None) => zip_seq_ops seen' r f
+      | (seen', Some (Some f')) => zip_seq_ops seen' r f'
+      | (_, Some None) => (false, f)
+      end
+  end.
+
+Definition call_of_entry (chunk : list N -> list (list N)) (e : Zi.entry) : zip_call :=
+  match e with
+  | Zi.EDir p => CMkdir p
+  | Zi.ELink p d => CSymlink p d
+  | Zi.EFile p d => CCopyFile p (chunk d)
+  end.
